@@ -42,7 +42,9 @@ fn special(pc: u8, v: f64, w: f64, is32: bool) -> (f64, f64) {
             f64::from_bits(if x >= 0.0 { x.to_bits() + 1 } else { x.to_bits() - 1 })
         }
     };
-    match pc % 12 {
+    match pc % 14 {
+        12 => (r(v), -0.0),
+        13 => (r(v), 0.0),
         0 => (r(v), r(v)),
         1 => (r(v), up(r(v))),
         2 => (up(r(v)), r(v)),
@@ -257,7 +259,7 @@ impl<'a> TyVisitor for VPred<'a> {
                 }
             }
         }
-        self.st.class(&format!("pair-class:{}", case.pc % 12));
+        self.st.class(&format!("pair-class:{}", case.pc % 14));
         let nontrivial = (1..fa.vals.len()).any(|i| fa.vals[i] != fb.vals[i]);
         Verdict::Pass { nontrivial }
     }
@@ -327,9 +329,12 @@ impl<'a> TyVisitorField for VField<'a> {
                 let want = if xb < xa { ra } else if xb > xc { xcv } else { rb };
                 same!("clamp", cl.to_bits(), want.to_bits());
             }
+            // copysign follows the sign BIT of the second real part (signed zeros, infinities included)
+            let cs = nalgebra::RealField::copysign(a.clone(), b.clone()).re().to64();
+            same!("copysign", cs.to_bits(), nalgebra::RealField::copysign(xa, xb).to64().to_bits());
         }
-        self.st.class(&format!("pair-class:{}", case.pc % 12));
-        let nontrivial = (1..fa.vals.len()).any(|i| fa.vals[i] != fb.vals[i]) && matches!(case.pc % 12, 0..=4);
+        self.st.class(&format!("pair-class:{}", case.pc % 14));
+        let nontrivial = (1..fa.vals.len()).any(|i| fa.vals[i] != fb.vals[i]) && matches!(case.pc % 14, 0..=4);
         if nontrivial && self.st.wants_sample() {
             self.st.sample(|| json!({"kind": "comparison", "type": T::tname(dims), "a": flat_json(&lay, &fa), "b": flat_json(&lay, &fb)}));
         }
@@ -429,7 +434,7 @@ impl Property for C06 {
         if c03::malformed(&case.prog) || case.ty != case.prog.ty || case.parts_b.is_empty() || case.parts_b.iter().any(|p| p.is_empty()) || case.pres_b.is_empty() || case.pres_b.iter().any(|p| p.is_empty()) || !case.pv.is_finite() || !case.pw.is_finite() {
             return Verdict::Trivial("malformed case");
         }
-        let dims = [case.dims.0 as usize, case.dims.1 as usize];
+        let dims = [case.dims.0 as usize % 7, case.dims.1 as usize % 7];
         match case.kind % 4 {
             0 => {
                 st.class("kind:program (metamorphic + float differential)");
@@ -463,7 +468,7 @@ impl Property for C06 {
         }
     }
     fn rule() -> String {
-        "four generated checks. (0) single operations: every unary function on the stratified real parts of C01 (negative, tiny, large, f32 ranges) with two independent part assignments: real part bit-identical and within 4 ulp (tan, tanh 8 ulp) of the plain float function; (1) metamorphic: a generated program (as C03) is evaluated twice on every type with the same real inputs and two independent assignments of all derivative parts (one third: all parts absent/zero): re() of EVERY node must be bit-identical; (2) differential: the same program on plain f32/f64 through the generic interface, every node's real part within 32 u e (single operations 8 u e) of the float result; the plain-float instances themselves against the std methods bit for bit (mul_add fused, powd = powf, ...); (3) pairs (a, b) with real parts from {equal, adjacent floats, +-0, +-inf, NaN, 0, 1, random} and arbitrary parts: == != < <= > >= partial_cmp on the field-compatible types and min/max/clamp decide like the floats; on every type is_zero, is_one, is_positive, is_negative, abs, signum (away from exact zeros), abs_sub decide by the real part. Non-trivial: the two assignments differ in >= 2 parts / the compared pair has equal or adjacent real parts but different parts.".into()
+        "four generated checks. (0) single operations: every unary function on the stratified real parts of C01 (negative, tiny, large, f32 ranges) with two independent part assignments: real part bit-identical and within 4 ulp (tan, tanh 8 ulp) of the plain float function; (1) metamorphic: a generated program (as C03) is evaluated twice on every type with the same real inputs and two independent assignments of all derivative parts (one third: all parts absent/zero): re() of EVERY node must be bit-identical; (2) differential: the same program on plain f32/f64 through the generic interface, every node's real part within 32 u e (single operations 8 u e) of the float result; the plain-float instances themselves against the std methods bit for bit (mul_add fused, powd = powf, ...); (3) pairs (a, b) with real parts from {equal, adjacent floats, +-0 (also against a non-zero value), +-inf, NaN, 0, 1, random} and arbitrary parts: == != < <= > >= partial_cmp on the field-compatible types and min/max/clamp/copysign decide like the floats (copysign by the sign bit, so -0.0 counts as negative); on every type is_zero, is_one, is_positive, is_negative, abs, signum (away from exact zeros), abs_sub decide by the real part. Non-trivial: the two assignments differ in >= 2 parts / the compared pair has equal or adjacent real parts but different parts.".into()
     }
     fn assumptions() -> Vec<String> {
         vec!["signum at exact zeros is outside the property (discontinuity)".into()]
